@@ -48,8 +48,11 @@ type Esc struct {
 	PwText  string   `json:"pw_text"` // the password prompt the device prints
 	PwHold  int      `json:"pw_hold,omitempty"`
 	Cmd     Cmd      `json:"cmd"`
-	Success bool     `json:"success"`            // expected outcome
-	PrivOpt bool     `json:"priv_opt,omitempty"` // api interactive: pass opoptions.WithPrivilegeLevel("privilege-exec")
+	Success bool     `json:"success"` // expected outcome
+	// PwPat is the level's escalate-prompt: a full regexp (default) or bare text whose leading /
+	// trailing white space is significant (": ", "Password: ", " password:").
+	PwPat   string `json:"pw_pat,omitempty"`
+	PrivOpt bool   `json:"priv_opt,omitempty"` // api interactive: pass opoptions.WithPrivilegeLevel("privilege-exec")
 }
 
 // Desc is a complete case descriptor.
@@ -85,6 +88,8 @@ type Desc struct {
 	// Ops: kind "multi": several interactive operations (each with its own commands before/after) on
 	// ONE channel; the caller passes the same pattern slice to every operation with Complete != "".
 	Ops []Desc `json:"ops,omitempty"`
+	// Plat: kind "platform": escalation through an embedded platform definition (see plat.go).
+	Plat *Plat `json:"plat,omitempty"`
 	// Wedge: the transport's Write of this input blocks past the operation timeout (see RunWedge).
 	Wedge *Wedge `json:"wedge,omitempty"`
 }
@@ -696,8 +701,21 @@ func GenEscalation(r *rand.Rand) Desc {
 	e.Secret = randStr(r, "abcdefghijkABCDEFG0123456789!%-+", 4+r.Intn(10)) + "Zq"
 	e.Given = e.Secret
 	e.PwText = pwTexts[r.Intn(len(pwTexts))]
-	if strings.HasSuffix(e.PwText, " ") && r.Intn(2) == 0 {
-		e.PwHold = 1
+	e.PwPat = pwPat
+	if r.Intn(3) == 0 {
+		// bare-text escalate prompt; the host names then carry colons, so that a prompt cut behind a
+		// colon shows what a pattern that lost its blank would take for the password prompt
+		bare := [][2]string{{": ", "[sudo] password for admin: "}, {": ", "Password: "}, {"Password: ", "Password: "},
+			{" password:", "enable password:"}, {" password:", "Enter password: "}}[r.Intn(5)]
+		e.PwPat, e.PwText = bare[0], bare[1]
+		d.Host = []string{"lab:sw1", "dc:2:r1", "a:b", "r1"}[r.Intn(4)]
+		d.Prompt = d.Host + ">"
+	}
+	// only bytes behind the point where the escalate-prompt matches may be withheld
+	if m := firstMatch(e.PwText, []*regexp.Regexp{regexp.MustCompile(e.PwPat)}); m < 0 {
+		panic("c12 generator: password prompt does not match the level's escalate-prompt")
+	} else if len(e.PwText)-m > 0 && r.Intn(2) == 0 {
+		e.PwHold = 1 + r.Intn(len(e.PwText)-m)
 	}
 	apis := []string{"acquire", "command", "command", "interactive"}
 	if e.Levels == 3 {
